@@ -10,6 +10,7 @@ UNITS = {
     'cart': {},
     'bus': {},
     'core_step': {},
+    'video_timing': {},
 }
 
 PROPS = {
@@ -109,6 +110,16 @@ PROPS['C09'] = {
     'level_text': 'Per step (instruction-stepped build): the devices receive catchup_post(mem, 4 * cycles) where cycles = the instruction\'s machine cycles (>= 1) plus the 5 pending from a previous dispatch; the timer view advances by exactly that many clocks (run), the LCD by video_after of the same count, DMA by count/4 bytes; catch-up happens before interrupts are sampled; a dispatch leaves exactly 5 cycles pending; a halted step delivers 4 clocks.',
     'level_note': 'Not covered: the block-stepped (jit) accounting in Core::run_code_block (C04 / known limitation) and termination of Core::run_frame within two frame periods (needs the LCD schedule as a variant; not attempted).',
     'assumptions': ['one catch-up batch <= 0xffff0000 clocks'],
+}
+
+PROPS['C14'] = {
+    'level': 'proof', 'verus': ['video_timing'], 'design_ref': 'DESIGN.md 5.14',
+    'trusted_base': TB_VERUS + ['rule R7 (program slice): the mode-3 pixel block and the mode-2 -> 3 tile set-up of run_clock_cycles are replaced by external stubs after a syntactic check that they (and the three rendering helpers) assign no timing / register-file field',
+                                'vstd specification of core::mem::swap'],
+    'technique': 'Verus loop invariant on the timing slice of VideoState::run_clock_cycles against a recursive closed-form schedule in structured coordinates; batching / frame-period lemmas by induction',
+    'level_text': 'VideoState::run_clock_cycles (sliced, R7), check_current_line, check_mode_interrupt, get_lcd_status, get_ly, get_current_mode, new and the register setters are proved for every elapsed time (multiple of 4), every STAT enable mask and LYC: the (line, offset, mode) state after n clocks equals lcd_run(n/4) of the reference schedule (456-clock lines 0..153, modes 2/3/0 = 80/188/188 clocks, lines 144-153 mode 1), the returned VBlank/STAT requests equal the OR of the per-step reference flags (VBlank exactly when LY becomes 144; STAT on entry to modes 2/0/1 with their enables and when LY becomes LYC), STAT bits 0-2 reflect the schedule; lemma_lcd_batching proves independence of batching and lemma_lcd_frame_period the 70224-clock frame.',
+    'level_note': 'Termination / panic-freedom of the sliced pixel code is not part of this claim (assumed by R7). The register-file frame is proved on a second copy of the same extracted text (run_clock_cycles_frame).',
+    'assumptions': ['elapsed time per batch is a multiple of 4 clocks (callers pass 4 x machine cycles)'],
 }
 
 HOOK_COMMITS = ['e7167ea']
